@@ -42,9 +42,18 @@ def gen_cases(rng, tier):
         pairs = [(a, b) for a in range(1, ns) for b in range(1, ns) if a != b]
         if tier == "quick":
             pairs = rng.sample(pairs, min(len(pairs), 4))
+        def usize(k):
+            return 0 if k < 2 else p["secs"][k - 2]["size"]
         for a, b in pairs:
-            yield {"id": f"o{i}-{a}-{b}", "lines": base + ["save", f"forceoverlap {a} {b}", "reload lazy=0", "validate"],
-                   "meta": {"prog": _c03.jsonable(p), "kind": "overlap", "i": a, "j": b}}
+            # placements: same start; strictly inside (start+1, both ends free) when it fits; tail overlap
+            deltas = [0]
+            if usize(a) >= usize(b) + 2 and usize(b) > 0:
+                deltas.append(1)
+            if usize(a) >= 2:
+                deltas.append(usize(a) - 1)
+            for dl in (deltas if tier == "thorough" else [rng.choice(deltas)] + ([1] if 1 in deltas and rng.random() < 0.7 else [])):
+                yield {"id": f"o{i}-{a}-{b}-{dl}", "lines": base + ["save", f"forceoverlap {a} {b} {dl}", "reload lazy=0", "validate"],
+                       "meta": {"prog": _c03.jsonable(p), "kind": "overlap", "i": a, "j": b, "delta": dl}}
         for j, g in enumerate(p["segs"]):
             if g["type"] == 1:
                 for d in ([rng.choice([1, 7, 4096, rng.randint(1, 4096)])] if tier == "quick" else [1, 7, 4096, rng.randint(1, 4096)]):
@@ -76,9 +85,11 @@ def oracle(case, out):
     f = vals[-1]
     if kind == "overlap":
         a, b = d["sections"][case["meta"]["i"]], d["sections"][case["meta"]["j"]]
-        must = all(elfspec.occupies_file(s["sh_type"]) and s["sh_size"] > 0 for s in (a, b)) and a["sh_offset"] > 0
+        dl = case["meta"].get("delta", 0)
+        must = all(elfspec.occupies_file(s["sh_type"]) and s["sh_size"] > 0 for s in (a, b)) and a["sh_offset"] > 0 \
+            and dl < a["sh_size"]
         if must and f.get("overlaps") == "0":
-            return [{"signature": "overlap-missed", "what": f"sections {case['meta']['i']} (type {a['sh_type']}) and {case['meta']['j']} (type {b['sh_type']}) forced to the same offset: no complaint"}]
+            return [{"signature": "overlap-missed", "what": f"sections {case['meta']['i']} (type {a['sh_type']}) and {case['meta']['j']} (type {b['sh_type']}) forced to overlap (offset of the first + {dl}): no complaint"}]
     if kind == "skew":
         g = d["segments"][case["meta"]["j"]]
         hit = any(s["sh_type"] == 1 and s["sh_size"] and s["sh_offset"] <= g["p_offset"] < s["sh_offset"] + s["sh_size"] for s in d["sections"])
